@@ -3,6 +3,8 @@ import Model
 def handle (line : String) : String :=
   match (line.trimAscii.toString.splitOn " ").filter (· ≠ "") with
   | "LFU" :: rest => LFU.runLine rest
+  | "PKL" :: rest => Pickle.runLine rest
+  | "FC" :: rest => Pickle.fcLine rest
   | _ => "bad-op"
 
 partial def loop (h : IO.FS.Stream) (out : IO.FS.Stream) : IO Unit := do
